@@ -85,13 +85,17 @@ def build(E, rank, N, closures=None, flags=None, potentials=None, omegas=None, d
         m = (diam or {}).get(t, 1 + (i % N))
         B.d[t] = B.dr * m
     if reassign:
-        # every value is first assigned something else (a corrected input, a sweep): nothing of it may survive
+        # a corrected input / composition sweep: everything is assigned, the FIRST declared type with another value,
+        # and then only that type is re-assigned; nothing derived from the old value may survive
         for t in types:
-            S.density[t] = B.rho[t] * 3.0
-            S.diameter[t] = B.d[t] * 2.0
-    for t in types:
-        S.density[t] = B.rho[t]
-        S.diameter[t] = B.d[t]
+            S.density[t] = B.rho[t] * (3.0 if t == types[0] else 1.0)
+            S.diameter[t] = B.d[t] * (2.0 if t == types[0] else 1.0)
+        S.density[types[0]] = B.rho[types[0]]
+        S.diameter[types[0]] = B.d[types[0]]
+    else:
+        for t in types:
+            S.density[t] = B.rho[t]
+            S.diameter[t] = B.d[t]
     B.closure = {}; B.flag = {}; B.uor = {}; B.w = {}; B.omega_kind = {}; B.uname = {}; B.psigma = {}
     if group_assign:
         cn = (closures or {}).get('*', 'PercusYevick'); fl = bool((flags or {}).get('*', False))
